@@ -49,7 +49,7 @@ class PlotWorld(object):
         self.filters = [WAV[i] * u.micron for i in self.filt_w]
         with fw.quiet():
             from sedfitter.fit import Fitter
-            self.fitter = Fitter(self.filters, np.array(aps_arcsec, dtype=float) * u.arcsec, self.dir, extinction_law=law, av_range=(0.0, 4.0),
+            self.fitter = Fitter(self.filters, np.array(aps_arcsec, dtype=float) * u.arcsec, self.dir, extinction_law=law, av_range=(-2.0, 4.0),
                                  distance_range=np.array([1.0, 3.0]) * u.kpc, use_memmap=bool(seed % 2))
 
     def close(self):
@@ -82,7 +82,7 @@ def replay_chunk(items, root, seed):
                 s.y = 0.0
                 s.valid = np.array([1, 1, 1])
                 s.flux = np.array([val(m0, 1, i) * rng.uniform(0.8, 1.25) * 0.2 for i in w.filt_w])
-                s.flux = s.flux * 10.0 ** (rng.choice([0.0, 1.0, 2.5]) * kk)          # reddened: the fitted A_V is non-zero
+                s.flux = s.flux * 10.0 ** (rng.choice([0.0, 1.0, 2.5, -1.5]) * kk)    # reddened (or bluer than the models: negative A_V)
                 s.error = 0.1 * s.flux
                 srcs.append(s)
             desc = {'behaviour': b, 'wavelengths_um': [WAV[i] for i in w.filt_w], 'sources_in_one_call': nsrc}
